@@ -31,6 +31,7 @@ type tester struct {
 	spentSC    []spentSC
 	spentSF    []spentSF
 	resolvedV2 []resolvedV2
+	resolvedV1 []resolvedV1
 	revertedSC []types.SiacoinElement
 	revertedSF []types.SiafundElement
 	revertedCI []types.ChainIndexElement
@@ -43,6 +44,11 @@ type spentSC struct {
 }
 type spentSF struct {
 	e  types.SiafundElement
+	x  *chaingen.ExtraElem
+	at uint64
+}
+type resolvedV1 struct {
+	e  types.FileContractElement
 	x  *chaingen.ExtraElem
 	at uint64
 }
@@ -590,6 +596,32 @@ func (t *tester) sample(cs consensus.State) {
 			t.expect("v2filecontract", "resolved-with-maintained-proof", false, "ValidateV2Transaction/expiration", acc)
 		}
 	}
+	for i := range t.resolvedV1 {
+		sp := &t.resolvedV1[i]
+		if sp.x.Dead {
+			continue
+		}
+		e := sp.e.Copy()
+		e.StateElement = sp.x.SE.Copy()
+		for _, r := range []struct {
+			name string
+			fill func(bs *consensus.V1BlockSupplement)
+		}{
+			{"supplement-revised", func(bs *consensus.V1BlockSupplement) {
+				bs.Transactions[0].RevisedFileContracts = []types.FileContractElement{e.Copy()}
+			}},
+			{"supplement-storage-proof", func(bs *consensus.V1BlockSupplement) {
+				bs.Transactions[0].StorageProofs = []consensus.V1StorageProofSupplement{{FileContract: e.Copy()}}
+			}},
+			{"supplement-expiring", func(bs *consensus.V1BlockSupplement) {
+				bs.ExpiringFileContracts = []types.FileContractElement{e.Copy()}
+			}},
+		} {
+			if acc, ok := t.r3(cs, r.fill); ok {
+				t.expect("filecontract", "resolved-with-maintained-proof", false, r.name, acc)
+			}
+		}
+	}
 	// elements of reverted branches (with the proof they had there) unless the very same element is live again
 	for _, e := range t.revertedSC {
 		if live, ok := s.SCEs[e.ID]; ok && live.SiacoinOutput == e.SiacoinOutput && live.MaturityHeight == e.MaturityHeight {
@@ -780,6 +812,21 @@ func (t *tester) onApply(ev chaingen.ApplyEvent) {
 		}
 	}
 	n = 0
+	for _, d := range ev.AU.FileContractElementDiffs() {
+		if d.Resolved && !d.Created && n < 1 && len(t.resolvedV1) < 15 {
+			e := d.FileContractElement.Copy()
+			if d.Revision != nil {
+				e.FileContract = *d.Revision
+			}
+			sp := resolvedV1{e: e, at: h}
+			se := e.StateElement.Copy()
+			sp.x = &chaingen.ExtraElem{Tag: "resolved-v1", SE: &se}
+			t.c.S.Extra = append(t.c.S.Extra, sp.x)
+			t.resolvedV1 = append(t.resolvedV1, sp)
+			n++
+		}
+	}
+	n = 0
 	for _, d := range ev.AU.V2FileContractElementDiffs() {
 		if d.Resolution != nil && !d.Created && n < 1 && len(t.resolvedV2) < 15 {
 			e := d.V2FileContractElement.Copy()
@@ -811,6 +858,11 @@ func (t *tester) onRevert(ev chaingen.RevertEvent, au *consensus.ApplyUpdate) {
 	for i := range t.resolvedV2 {
 		if t.resolvedV2[i].at > h {
 			t.resolvedV2[i].x.Dead = true
+		}
+	}
+	for i := range t.resolvedV1 {
+		if t.resolvedV1[i].at > h {
+			t.resolvedV1[i].x.Dead = true
 		}
 	}
 	// elements the reverted block created, as the revert reports them (with the proof valid on that branch: taken from the store before the revert — see caller)
